@@ -18,6 +18,10 @@ EXPLANATION = (
     "whose update_priority delegates to it. Init order: the priority slot initialised is the slot the transition is written to (before "
     "the ring advances in LAP; the returned `inserted_at` slots in the subtrajectory buffer) and receives max_priority. Sampler form: "
     "inverse-CDF searchsorted(cumsum(p[:len] * mask[:len]), u * total) with u ~ U(0,1) (stratified: per-segment bounds k*total/B, (k+1)*total/B). "
+    "Spellings with one meaning are read the same way: A.searchsorted(v) / np.searchsorted(A, v), len(self) / what __len__ returns, np.f(x, out=X) into a freshly "
+    "allocated local / X = np.f(x), a sampler that forwards to its sibling / the sibling's body with the arguments passed, an added flag parameter / its default. "
+    "Reset of the tracked maximum: the maximum over a selection of the filled priorities chosen by other data (a mask) is below a stored priority. Derived state: a "
+    "distribution computed from the priorities and kept in an attribute between calls must be refreshed (or its reuse test be affected) by every method that writes a priority. "
     "Bookkeeping and priority / importance-weight formulas are normal-form identities. Call-site protocol: in the four training loops the "
     "argument of update_priority derives from the update that consumed the batch of the most recent sample_batch on that buffer, with no "
     "other sample_batch on the buffer in between (typestate over the CFG)."
@@ -31,6 +35,7 @@ RULES = {
     "R5-formulas": "LAP: max(|d|, p_min)^alpha; PER: |d|^alpha + eps; importance ratio (len * p / sum)^(-beta) normalised by its max",
     "R7-store-writers": "the stored priority array (PriorityBuffer.priority) is written only by __init__, initialize_priority and update_priority: no other function writes it through a subscript store, an augmented assignment or an in-place numpy call, directly or through a view (basic slice, np.asarray, reshape, ravel) held in a local",
     "R8-multitask-routing": "MultiTaskReplayBuffer.update_priority forwards to the member buffer that the last sample_batch sampled from (same index expression, recorded by sample_batch); reset_max_priority reaches every member",
+    "R9-derived-state": "a distribution computed from the stored priorities and kept in an attribute between calls is refreshed by every write: each method that stores into the priority array also assigns the kept attribute or something the reuse test reads",
     "R6-call-protocol": "update_priority(<priority of the errors returned by the update that consumed the last sampled batch>) with no sample_batch on that buffer in between",
 }
 
@@ -241,6 +246,193 @@ def _need_no_local_mutation(cfg, fn, site):
     for c in ast.walk(fn):
         if isinstance(c, ast.Call) and (any(k.arg == "out" for k in c.keywords) or (isinstance(c.func, ast.Attribute) and c.func.attr in _INPLACE_METHODS | _INPLACE_FUNCS)):
             raise AnalysisError(f"{site}: `{short(c, 60)}` updates an array in place (unrecognised form)")
+
+
+def _numpy_alias(mi):
+    """The local name under which the module imports numpy (needed to write a method call as the library function)."""
+    for k_, v_ in sorted(getattr(mi, "imports", {}).items()):
+        if v_ == "numpy":
+            return k_
+    return None
+
+
+def _is_fresh_array(e) -> bool:
+    """An expression that allocates its result (arithmetic, a non-view library call): no other name can refer to the same memory."""
+    if isinstance(e, (ast.BinOp, ast.UnaryOp)):
+        return True
+    if isinstance(e, ast.Call):
+        f_ = e.func
+        nm_ = f_.attr if isinstance(f_, ast.Attribute) else f_.id if isinstance(f_, ast.Name) else None
+        return nm_ is not None and nm_ not in _VIEW_METHODS | _VIEW_FUNCS | {"array"} and not any(k.arg == "out" for k in e.keywords)
+    return False
+
+
+def _refers_to(e, name: str) -> bool:
+    """e is the local `name` itself or a view of it (basic slice, .T, reshape / ravel / asarray ...): an alias of its memory."""
+    for _ in range(8):
+        if isinstance(e, ast.Name):
+            return e.id == name
+        if isinstance(e, ast.Subscript) and _basic_index(e.slice):
+            e = e.value
+        elif isinstance(e, ast.Attribute) and e.attr == "T":
+            e = e.value
+        elif isinstance(e, ast.Call) and isinstance(e.func, ast.Attribute) and e.func.attr in _VIEW_METHODS:
+            e = e.func.value
+        elif isinstance(e, ast.Call) and isinstance(e.func, ast.Attribute) and e.func.attr in _VIEW_FUNCS and e.args:
+            e = e.args[0]
+        else:
+            return False
+    return False
+
+
+def _read_spellings(repo, nf, fn, cq):
+    """Private copy of a method in which three spellings are written the way the value rules read them (the meaning is unchanged; the
+    original tree is not touched; None when nothing had to be rewritten):
+      * `A.searchsorted(v, ..)` on a value A (not a module)            ->  `np.searchsorted(A, v, ..)`        (numpy: the method *is* the function)
+      * `len(self)`                                                    ->  the expression `__len__` of the class returns
+      * `np.f(.., out=X)` as a statement / `X = np.f(.., out=X)` where X is a local that holds a freshly allocated array which no other
+        name aliases                                                   ->  `X = np.f(..)`                      (the value of X afterwards)
+    """
+    from ..expand import clone
+    mi = fn._module
+    new = clone(fn)
+    changed = [False]
+    params = {a.arg for a in fn.args.posonlyargs + fn.args.args + fn.args.kwonlyargs}
+    stored = {x.id for x in ast.walk(fn) if isinstance(x, ast.Name) and isinstance(x.ctx, ast.Store)}
+    npn = _numpy_alias(mi)
+    len_expr = None
+    m_len = repo.method(cq, "__len__") if cq else None
+    if m_len is not None:
+        body_ = [s for s in m_len[1].body if not (isinstance(s, ast.Expr) and isinstance(s.value, ast.Constant))]
+        if len(body_) == 1 and isinstance(body_[0], ast.Return) and body_[0].value is not None and dotted(body_[0].value) and dotted(body_[0].value).startswith("self."):
+            len_expr = body_[0].value
+
+    class T(ast.NodeTransformer):
+        def visit_Call(self, c):
+            self.generic_visit(c)
+            f_ = c.func
+            if isinstance(f_, ast.Attribute) and f_.attr == "searchsorted" and npn is not None and npn not in stored | params:
+                root = f_.value
+                while isinstance(root, (ast.Attribute, ast.Subscript, ast.Call)):
+                    root = root.func if isinstance(root, ast.Call) else root.value
+                if isinstance(root, ast.Name) and (root.id == "self" or root.id in stored | params) and not any(isinstance(a, ast.Starred) for a in c.args):
+                    changed[0] = True
+                    return ast.copy_location(ast.Call(func=ast.Attribute(value=ast.Name(id=npn, ctx=ast.Load()), attr="searchsorted", ctx=ast.Load()), args=[f_.value] + list(c.args), keywords=list(c.keywords)), c)
+            if isinstance(f_, ast.Name) and f_.id == "len" and "len" not in stored | params and len(c.args) == 1 and not c.keywords and isinstance(c.args[0], ast.Name) and c.args[0].id == "self" and len_expr is not None:
+                changed[0] = True
+                return ast.copy_location(clone(len_expr), c)
+            return c
+    new = T().visit(new)
+    # in-place accumulation into a fresh local
+    defs_of = {}
+    for st in ast.walk(new):
+        for t in _targets(st) if isinstance(st, (ast.Assign, ast.AnnAssign, ast.AugAssign)) else []:
+            if isinstance(t, ast.Name):
+                defs_of.setdefault(t.id, []).append(st)
+
+    def out_local(c):
+        """X when the call writes its result into the local X that holds a fresh array nobody else refers to"""
+        ks = [k for k in c.keywords if k.arg == "out"]
+        if len(ks) != 1 or not isinstance(ks[0].value, ast.Name):
+            return None
+        x = ks[0].value.id
+        if x in params or x not in defs_of:
+            return None
+        for d in defs_of[x]:
+            into_itself = isinstance(d, ast.Assign) and isinstance(d.value, ast.Call) and any(k.arg == "out" and isinstance(k.value, ast.Name) and k.value.id == x for k in d.value.keywords)
+            if not (isinstance(d, ast.Assign) and len(d.targets) == 1 and isinstance(d.targets[0], ast.Name) and (_is_fresh_array(d.value) or into_itself)):
+                return None
+        for st in ast.walk(new):
+            if isinstance(st, (ast.Assign, ast.AnnAssign)) and st.value is not None and _refers_to(st.value, x):
+                return None      # another name for the same memory
+            if isinstance(st, ast.Call) and st is not c and any(_refers_to(a, x) for a in st.args) and isinstance(st.func, ast.Attribute) and st.func.attr in ("append", "extend", "setdefault", "update"):
+                return None      # stored in a container
+        return x
+
+    def block(stmts):
+        out = []
+        for st in stmts:
+            for f in ("body", "orelse", "finalbody"):
+                v = getattr(st, f, None)
+                if isinstance(v, list) and v and isinstance(v[0], ast.stmt) and not isinstance(st, (ast.FunctionDef, ast.ClassDef)):
+                    setattr(st, f, block(v))
+            for h in getattr(st, "handlers", []) or []:
+                h.body = block(h.body)
+            c = st.value if isinstance(st, (ast.Expr, ast.Assign)) and isinstance(st.value, ast.Call) else None
+            x = out_local(c) if c is not None and isinstance(c.func, ast.Attribute) and dotted(c.func.value) == npn else None
+            if x is not None and (isinstance(st, ast.Expr) or (len(st.targets) == 1 and isinstance(st.targets[0], ast.Name) and st.targets[0].id == x)):
+                c2 = ast.Call(func=c.func, args=list(c.args), keywords=[k for k in c.keywords if k.arg != "out"])
+                out.append(ast.copy_location(ast.Assign(targets=[ast.Name(id=x, ctx=ast.Store())], value=ast.copy_location(c2, c)), st))
+                changed[0] = True
+            else:
+                out.append(st)
+        return out
+    new.body = block(new.body)
+    if not changed[0]:
+        return None
+    ast.fix_missing_locations(new)
+    for parent in ast.walk(new):
+        for child in ast.iter_child_nodes(parent):
+            child._parent = parent
+    new._module = mi
+    new._parent = getattr(fn, "_parent", None)
+    nf.__dict__.setdefault("_c08_keep", []).append(new)     # CFGs are cached by object identity: the copy must stay alive
+    return new
+
+
+def _forwarded(repo, nf, fn, cq, qual):
+    """A method that only forwards to another sampler of the repository (`return self.priority.prioritized_sampling(.., stratified=True)`)
+    is read like the callee's body with the forwarder's arguments: private copy with the direct repository callees expanded in place,
+    None when there is nothing to expand."""
+    from ..expand import Expander, clone, load_known
+    mi = fn._module
+    probe = Expander(repo, set(), max_depth=1)
+    callees = set()
+    for n in ast.walk(fn):
+        if isinstance(n, ast.Call):
+            r = probe.resolve(n, mi, cq, qual)
+            if r is not None and not r[0].startswith("<lambda>"):
+                callees.add(r[0])
+    callees.discard(qual)
+    if not callees:
+        return None
+    new = clone(fn)
+    new._module = mi
+    new._parent = getattr(fn, "_parent", None)
+    try:
+        if not Expander(repo, load_known() - callees, max_depth=1).expand_function(new, mi, cq, qual):
+            return None
+    except Exception:
+        return None
+    for parent in ast.walk(new):
+        for child in ast.iter_child_nodes(parent):
+            child._parent = parent
+    new._module = mi
+    nf.__dict__.setdefault("_c08_keep", []).append(new)
+    return new
+
+
+def _need_extra_params_unpassed(repo, nf, fn, cq, meth, extra, site):
+    """The sampler is read with its additional parameters at their defaults: every call of it in the package must leave them at the
+    default, except the calls made by the stratified sampler of the PER buffer, which the rule reads in place with the values passed."""
+    read_in_place = {RB + "PrioritizedReplayBuffer.prioritized_sampling_stratified"}
+    roles = _roles(fn)
+    a_ = fn.args
+    dflt = dict(zip([x.arg for x in a_.posonlyargs + a_.args][len(a_.posonlyargs + a_.args) - len(a_.defaults):], a_.defaults))
+    dflt.update({x.arg: d for x, d in zip(a_.kwonlyargs, a_.kw_defaults) if d is not None})
+
+    def is_default(k):
+        d, v = dflt.get(k.arg), k.value
+        return isinstance(d, ast.Constant) and isinstance(v, ast.Constant) and type(d.value) is type(v.value) and d.value == v.value
+    for fq, g, _mi in repo.all_functions():
+        if not fq.startswith("rl_blox.") or fq in read_in_place:
+            continue
+        for c in ast.walk(g):
+            if isinstance(c, ast.Call) and isinstance(c.func, ast.Attribute) and c.func.attr == meth:
+                if any(isinstance(a, ast.Starred) for a in c.args) or any(k.arg is None for k in c.keywords):
+                    raise AnalysisError(f"{site}: `{short(c, 60)}` in {fq} passes arguments through * / ** to a sampler with additional parameters (unrecognised form)")
+                if len(c.args) > len(roles) - 1 - len(extra) or any(k.arg in extra and not is_default(k) for k in c.keywords):
+                    raise AnalysisError(f"{site}: `{short(c, 60)}` in {fq} passes `{extra}`; the sampler is read at the defaults only (unrecognised form)")
 
 
 def _roles(fn) -> list:
@@ -913,10 +1105,15 @@ def r3_sampler(ck, repo, nf, field, cq, meth, fieldtxt, kind):
     The roles current_len / batch_size / rng / mask are the positions of the recorded signature."""
     f = _m(repo, cq, meth)
     mi = f._module
+    site = f"{cq}.{meth}"
+    f0 = f
+    if not any(isinstance(x, ast.Call) and isinstance(x.func, ast.Attribute) and x.func.attr == "searchsorted" for x in ast.walk(f)):
+        f = _forwarded(repo, nf, f, cq, site) or f     # a forwarder is read like the sampler it calls, with its own arguments
+    f = _read_spellings(repo, nf, f, cq) or f      # method / in-place spellings of the library calls
     if any(isinstance(x, ast.IfExp) for x in ast.walk(f)):
         f = split_conditional_assignments(f)     # `x = a if c else b` read as two paths
         f._module = mi
-    site = f"{cq}.{meth}"
+        nf.__dict__.setdefault("_c08_keep", []).append(f)
     c = nf.cfg_of(f)
     _need_no_local_mutation(c, f, site)
     ps = _roles(f)
@@ -926,6 +1123,17 @@ def r3_sampler(ck, repo, nf, field, cq, meth, fieldtxt, kind):
     ck.need(len(rets_) == 1, f"{site}: expected one return")
     retn = rets_[0]
     env_ = {p_: Poly.atom(p_, {p_}, {p_}) for p_ in ps}
+    # a parameter added behind the recorded roles keeps its default at every call that does not pass it: the method is read under that
+    # value (a repository call that does pass it is read where it stands: the forwarder above; any other such call is not read)
+    a_ = f0.args
+    dflt = dict(zip([x.arg for x in a_.posonlyargs + a_.args][len(a_.posonlyargs + a_.args) - len(a_.defaults):], a_.defaults))
+    dflt.update({x.arg: d for x, d in zip(a_.kwonlyargs, a_.kw_defaults) if d is not None})
+    for p_ in ps[5:]:
+        if p_ not in dflt or not isinstance(dflt[p_], ast.Constant):
+            raise AnalysisError(f"{site}: parameter `{p_}` behind the recorded roles has no constant default (unrecognised form)")
+        env_[p_] = nf.poly(dflt[p_], Scope(None, mi, {}, site), None)
+    if ps[5:]:
+        _need_extra_params_unpassed(repo, nf, f0, cq, meth, ps[5:], site)
     spec_sc = Scope(None, mi, env_, site)
 
     def sp(txt):
@@ -936,16 +1144,30 @@ def r3_sampler(ck, repo, nf, field, cq, meth, fieldtxt, kind):
     for pth in enumerate_paths(c, c.entry, {retn.id}):
         pe = PathEval(nf, c, mi, site, env_)
         masked = None
+        dead = False
         for nid, lab in pth[:-1]:
             nd = c.nodes[nid]
             if nd.kind == "test" and lab in (True, False) and hasattr(nd.ast, "test"):
-                t_ = pe.ev(nd.ast.test).canon()
+                tv_ = pe.ev(nd.ast.test)
+                mt_ = nf.meta.get(tv_.single_atom() or "", {})
+                if mt_.get("fn") in ("Is", "IsNot") and len(mt_.get("args", [])) == 2 and all(x.canon() == "None" for x in mt_["args"]):
+                    tv_ = Poly.const(1 if mt_["fn"] == "Is" else 0)     # `None is None`: the forwarder passes no mask
+                if tv_.is_const() and not _unread(tv_):
+                    # a test on a known constant (a flag at its default, a literal passed by the forwarder): one arm only
+                    if (tv_ != Poly.const(0)) != lab:
+                        dead = True
+                        break
+                    pe.step(nid, lab)
+                    continue
+                t_ = tv_.canon()
                 for l_ in (_flatten_and(t_) if lab else ([_negate(t_)] if len(_flatten_and(t_)) == 1 else [])):
                     if l_ == f"IsNot({MASK}, None)":
                         masked = True
                     elif l_ == f"Is({MASK}, None)":
                         masked = False
             pe.step(nid, lab)
+        if dead:
+            continue
         val = pe.ev(retn.ast.value)
         if val.canon() in pe.store:
             val = pe.store[val.canon()]
@@ -1018,6 +1240,8 @@ def r3_sampler(ck, repo, nf, field, cq, meth, fieldtxt, kind):
             gotU = shift + rest * (low + (high - low) * U01)
             _decide(ck, nf, "R3-sampler-form", site, f"stratified-segments:{tag}", gotU, k * seg + seg * U01, f"U = {U.canon()[:110]}",
                     "expected one uniform draw per segment [k*total/B, (k+1)*total/B): the segments do not tile [0, total)", loc(mi, f))
+    if not seen:
+        raise AnalysisError(f"{site}: no path to the return is enabled (unrecognised form)")
     if n_masked == 0:
         if any(isinstance(x, ast.Name) and x.id == MASK and isinstance(x.ctx, ast.Load) for x in ast.walk(f)):
             raise AnalysisError(f"{site}: no path on which `{MASK}` is known to be given (unrecognised form)")
@@ -1040,6 +1264,119 @@ def r3_sampler(ck, repo, nf, field, cq, meth, fieldtxt, kind):
     if not okr and not _evidence(nf, got_r, recs):
         raise AnalysisError(f"{site}: returned indices `{got_r.canon()[:80]}` cannot be related to the recorded ones (unrecognised form)")
     ck.ob("R3-sampler-form", site, "returns-recorded-indices", okr, f"return {short(rv)}; recorded by {[short(n.ast, 50) for n in rec]}", "" if okr else "the indices returned must be the ones recorded for update_priority", loc(mi, f))
+
+
+def r9_derived_state(ck, repo, nf, cq, meth, fieldtxt, done):
+    """A cumulative distribution kept between calls.  Facts read per path of the sampler: (1) on some path the sampler stores, in an
+    attribute A of the PriorityBuffer object, a value computed from the stored priorities; (2) on another path the array searched is A as
+    it was at entry (computed by an earlier call), and the tests that enable this path read the object attributes G (and call
+    arguments).  Then every method that stores into the priority array must, on every path that does so, also assign A or one of G:
+    a writer that leaves them all untouched cannot be noticed by the reuse test, so with the same call arguments (a full ring: the
+    length no longer changes) the next draw follows the distribution computed before the write."""
+    PB = RB + "PriorityBuffer"
+    f = _m(repo, cq, meth)
+    mi = f._module
+    site = f"{cq}.{meth}"
+    f = _read_spellings(repo, nf, f, cq) or f
+    obj = fieldtxt[:-len("priority")]      # "self." inside the PriorityBuffer, "self.priority." in a buffer that holds one
+    c = nf.cfg_of(f)
+    rets_ = [n for n in c.nodes if n.kind == "stmt" and isinstance(n.ast, ast.Return) and n.ast.value is not None]
+    if len(rets_) != 1:
+        return
+    retn = rets_[0]
+    env_ = {p_: Poly.atom(p_, {p_}, {p_}) for p_ in _roles(f)}
+    attr_of = re.compile(re.escape(obj) + r"([A-Za-z_]\w*)")
+    derived, reuse = {}, []
+    for pth in enumerate_paths(c, c.entry, {retn.id}):
+        pe = PathEval(nf, c, mi, site, env_)
+        lits = []
+        for nid, lab in pth[:-1]:
+            nd = c.nodes[nid]
+            if nd.kind == "test" and lab in (True, False) and hasattr(nd.ast, "test"):
+                t_ = pe.ev(nd.ast.test).canon()
+                lits.append(t_ if lab else _negate(t_))
+            pe.step(nid, lab)
+        val = pe.ev(retn.ast.value)
+        if val.canon() in pe.store:
+            val = pe.store[val.canon()]
+        m_ = nf.meta.get(val.single_atom() or "", {})
+        if m_.get("fn", "").split(".")[-1] != "searchsorted" or not m_.get("args"):
+            continue
+        for k_, v_ in pe.store.items():
+            ma_ = attr_of.fullmatch(k_)
+            if ma_ and k_ != fieldtxt and not _unread(v_) and fieldtxt in v_.canon():
+                derived[ma_.group(1)] = v_
+        a_ = m_["args"][0].single_atom() or ""
+        ma_ = attr_of.fullmatch(a_)
+        if ma_ and a_ != fieldtxt and a_ not in pe.store:
+            reuse.append((ma_.group(1), frozenset(x for l_ in lits for x in attr_of.findall(l_)), tuple(lits)))
+    reuse = [r_ for r_ in reuse if r_[0] in derived]
+    ck.count(f"derived-state-reuse-paths:{meth}", len(reuse))
+    if not reuse:
+        return
+    # the methods of the PriorityBuffer that store into the priority array, and every other assignment of A / G in the package
+    writers, assigns = [], {}
+    transparent = repo.transparent_helpers()      # helpers every call of which was expanded in place: their bodies are read where they are called
+    for fq, g, gmi in repo.all_functions():
+        if not fq.startswith("rl_blox.") or fq in transparent:
+            continue
+        in_pb = fq.startswith(PB + ".") and fq.count(".") == PB.count(".") + 1
+        for st in ast.walk(g):
+            for t in (_targets(st) if isinstance(st, (ast.Assign, ast.AugAssign, ast.AnnAssign)) else []):
+                if isinstance(t, ast.Attribute):
+                    assigns.setdefault(t.attr, []).append((fq, g, st))
+                if in_pb and isinstance(t, ast.Subscript) and dotted(t.value) == "self.priority" and (fq, g) not in writers:
+                    writers.append((fq, g))
+            if in_pb and isinstance(st, ast.Call) and isinstance(st.func, ast.Name) and st.func.id == "setattr":
+                raise AnalysisError(f"{site}: `{short(st, 60)}` in {fq} assigns an attribute by name (unrecognised form)")
+    writer_q = {w[0] for w in writers}
+    roles_ = _roles(f)
+    caller_chosen = set(roles_) - {"self"} - set(roles_[1:2]) - set(roles_[4:5])      # every parameter except the filled length and the mask
+    for A, G, lits in dict.fromkeys(reuse):
+        watch = {A} | set(G)
+        asked = sorted(caller_chosen & set().union(*[_tok(l_) for l_ in lits])) if lits else []
+        if asked:
+            # the caller decides when the kept distribution may be used again: whether it does so only between writes is a fact about the callers
+            raise AnalysisError(f"{site}: the reuse of `{A}` is requested through the argument(s) {asked}; the callers' protocol is not read (unrecognised form)")
+        # an invalidation made outside the writers (a method the callers of a writer are expected to call) is not read
+        for x in sorted(watch - {"priority"}):
+            for fq, g, st in assigns.get(x, []):
+                nm = fq.rsplit(".", 1)[-1]
+                # a function that reads the priorities and assigns a computed value: the computation of the kept state itself (the sampler of
+                # another class, a helper); an invalidation assigns a constant (None, a flag) or bumps a counter
+                recompute = isinstance(st, (ast.Assign, ast.AnnAssign)) and st.value is not None and not isinstance(st.value, ast.Constant) \
+                    and any(isinstance(y, ast.Attribute) and y.attr == "priority" and isinstance(y.ctx, ast.Load) for y in ast.walk(g))
+                if nm in ("__init__", "__setstate__") or fq in writer_q or fq == site or recompute:
+                    continue
+                raise AnalysisError(f"{site}: `{x}` (read by the test that reuses `{A}`) is also assigned in {fq}, whose callers are not read (unrecognised form)")
+        for fq, g in writers:
+            nm = fq.rsplit(".", 1)[-1]
+            if nm in ("__init__", "__setstate__") or (fq, A) in done:
+                continue
+            done.add((fq, A))
+            g._module = getattr(g, "_module", mi)
+            _need_no_own_calls(repo, PB, g, fq)
+            gc = nf.cfg_of(g)
+            genv = {p_: Poly.atom(p_, {p_}, {p_}) for p_ in _roles(g)}
+            bad = None
+            n_paths = 0
+            for pth in enumerate_paths(gc, gc.entry, {gc.exit}):
+                pe = PathEval(nf, gc, g._module, fq, genv)
+                pe.run(pth[:-1])
+                wrote = any(b_ == "self.priority" for (_n, b_, _i, _v) in pe.effects) or any(k_.startswith("self.priority[") for k_ in pe.store)
+                if not wrote:
+                    continue
+                n_paths += 1
+                touched = {k_[5:] for k_ in pe.store if k_.startswith("self.") and k_[5:].isidentifier()}
+                if "priority" in watch or touched & watch:
+                    continue
+                bad = bad or f"stores into the priority array and assigns none of {sorted(watch)}"
+            if n_paths == 0:
+                raise AnalysisError(f"{fq}: the store into the priority array lies on no enumerated path (unrecognised form)")
+            ck.ob("R9-derived-state", fq, f"refreshes:{A}", bad is None, f"`{obj}{A}` is computed from the priorities by {meth} and reused when {list(lits)}" + (f"; {nm} {bad}" if bad else f"; {nm} assigns one of {sorted(watch)} on every path that writes a priority"),
+                  "" if bad is None else f"{meth} keeps a distribution computed from the stored priorities in `{A}` and searches it again whenever {list(lits)} holds; {nm} changes a stored priority and leaves `{A}` and everything that test reads "
+                  f"({sorted(watch)}) as they were, so with the same arguments (a full ring buffer: the length no longer changes) the next batch is drawn from the distribution before the write: a newly added / re-prioritised transition is "
+                  "not drawn in proportion to its priority", loc(g._module, g))
 
 
 def r3_subtraj_masked(ck, repo, nf):
@@ -1181,36 +1518,77 @@ def r4_reset(ck, repo, nf):
     ck.need(len(ws) >= 1, f"{PB}.reset_max_priority: no assignment of max_priority")
     envr = {p_: Poly.atom(p_, {p_}, {p_}) for p_ in ps}
     filled = nf.poly(parse_expr(f"self.priority[:{lp}]"), Scope(None, mi, envr, PB), None)
+    pending = []      # forms that are not read: reported as undecided only after every path has been looked at (a definite finding on another path stands)
+    n_ob = 0
     for w_ in ws:
         if not isinstance(w_.ast, (ast.Assign, ast.AnnAssign)) or len(_targets(w_.ast)) != 1:
             raise AnalysisError(f"{PB}.reset_max_priority: `{short(w_.ast, 60)}` (unrecognised form)")
         g = guard_literals(nf, cfgr, mi, w_.id)
-        okg = all(x in (sem_spec(nf, mi, f"{lp} > 0"), sem_spec(nf, mi, f"{lp} >= 1"), sem_spec(nf, mi, f"{lp} != 0"), lp) for x in g)
+        nonempty = (sem_spec(nf, mi, f"{lp} > 0"), sem_spec(nf, mi, f"{lp} >= 1"), sem_spec(nf, mi, f"{lp} != 0"), lp)
+        okg = all(x in nonempty for x in g)
         seen_v = set()
         for path in enumerate_paths(cfgr, cfgr.entry, {w_.id}):
             pe = PathEval(nf, cfgr, mi, PB, envr)
+            lits = []
             for nid_, lab_ in path[:-1]:
+                nd_ = cfgr.nodes[nid_]
+                if nd_.kind == "test" and lab_ in (True, False) and hasattr(nd_.ast, "test"):
+                    t_ = pe.ev(nd_.ast.test).canon()
+                    lits += _flatten_and(t_) if lab_ else [_negate(t_)]
                 pe.step(nid_, lab_)
             val = pe.ev(w_.ast.value)
             v = val.canon()
             if v in seen_v:
                 continue
             seen_v.add(v)
+            # the guard in the state of the path: "the filled region is not empty", said of the length or of the filled slice (through locals)
+            envg = dict(envr)
+            nonempty_p = {sem_spec(nf, mi, t_, envg) for t_ in (f"{lp} > 0", f"{lp} >= 1", f"{lp} != 0", lp, f"len(self.priority[:{lp}]) > 0", f"len(self.priority[:{lp}]) >= 1",
+                                                                 f"len(self.priority[:{lp}]) != 0", f"len(self.priority[:{lp}])", f"self.priority[:{lp}].size > 0", f"self.priority[:{lp}].size")}
+            okg_p = okg or all(x in nonempty_p for x in lits)
             m_ = nf.meta.get(val.single_atom() or "", {})
             arg = m_["args"][0] if m_.get("fn", "").split(".")[-1] in ("max", "amax", "nanmax") and len(m_.get("args", [])) == 1 and not m_.get("kws") else None
             okv = arg is not None and arg == filled
             why = ""
             if not okv:
                 fa = filled.single_atom()
+                ma = nf.meta.get(arg.single_atom() or "", {}) if arg is not None else {}
+                sel = arg.single_atom()[len(filled.canon()):] if ma.get("fn") == "subscript" and ma.get("args") and ma["args"][0] == filled else None
                 if arg is not None and not _unread(arg) and fa is not None and fa in arg.atoms() and all(fa in dict(mono) and dict(mono)[fa] == 1 for mono in arg.terms):
                     why = f"the maximum is taken over `{arg.canon()[:80]}`, the filled priorities multiplied by another factor (a mask): a stored priority that the factor hides is larger than the recomputed maximum, so later transitions start below it"
                 elif arg is not None and not _unread(arg) and "self.priority" in arg.atoms() and fa not in arg.atoms():
                     why = f"the maximum is taken over `{v}`: slots beyond the filled region hold uninitialised memory"
+                elif sel is not None and not _unread(arg) and _is_data_selection(sel, _tok(filled)):
+                    why = (f"the maximum is taken over the selection `{sel[:60]}` of the filled priorities, chosen by data other than the priorities themselves (a mask): "
+                           "a stored priority outside the selection can be larger than the recomputed maximum, so the tracked maximum falls below a stored priority")
                 else:
-                    raise AnalysisError(f"{PB}.reset_max_priority: new value `{v}` not recognised")
-            elif not okg:
-                raise AnalysisError(f"{PB}.reset_max_priority: guard {g} not recognised")
-            ck.ob("R4-bookkeeping", PB + ".reset_max_priority", "true-maximum" if len(seen_v) == 1 else f"true-maximum:{len(seen_v)}", okv and okg, f"max_priority = {v[:100]} under {g}", why, loc(mi, fn))
+                    pending.append(f"{PB}.reset_max_priority: new value `{v}` not recognised")
+                    continue
+            elif not okg_p:
+                pending.append(f"{PB}.reset_max_priority: guard {lits or g} not recognised")
+                continue
+            n_ob += 1
+            ck.ob("R4-bookkeeping", PB + ".reset_max_priority", "true-maximum" if n_ob == 1 else f"true-maximum:{n_ob}", okv and okg_p, f"max_priority = {v[:100]} under {lits or g}", why, loc(mi, fn))
+    if pending:
+        raise AnalysisError("; ".join(dict.fromkeys(pending)))
+
+
+_CMP_HEADS = ("Lt(", "LtE(", "Gt(", "GtE(", "NotEq(", "Eq(", "nonzero(", "flatnonzero(", "astype(", "not(", "logical_not(", "invert(")
+
+
+def _is_data_selection(sel: str, priority_tokens: set) -> bool:
+    """The index text `[..]` of a subscript is an element selection (a comparison / boolean conversion / nonzero positions) computed from
+    data that is not the priorities: which elements are kept does not depend on how large they are, so the kept ones need not contain
+    the largest.  (`p[p > 0]` keeps the maximum and is not such a selection.)"""
+    if not (sel.startswith("[") and sel.endswith("]")):
+        return False
+    inner = sel[1:-1]
+    if _top(inner).count(",") or not inner.startswith(_CMP_HEADS):
+        return False
+    toks = set(_IDENT.findall(inner))
+    heads = {h[:-1] for h in _CMP_HEADS} | {"bool", "bool_", "np", "numpy", "None", "True", "False"}
+    data = toks - heads - {"self"}
+    return bool(data) and "priority" not in toks and not (data <= (priority_tokens - {"self", "priority"}))
 
 
 def _norm_pow(nf, p: Poly, depth: int = 0) -> Poly:
@@ -1268,6 +1646,7 @@ def r5_importance(ck, repo, nf):
     fn = _m(repo, cq, "compute_importance_ratio")
     mi = fn._module
     site = cq + ".compute_importance_ratio"
+    fn = _read_spellings(repo, nf, fn, cq) or fn      # len(self) is what __len__ returns; method / in-place spellings of library calls
     cfg = nf.cfg_of(fn)
     _need_no_local_mutation(cfg, fn, site)
     ps = _roles(fn)
@@ -1462,6 +1841,9 @@ def run(ck, repo: Repo, tier: str):
     _group(ck, r3_sampler, ck, repo, nf, field, PB, "prioritized_sampling", "self.priority", "plain")
     _group(ck, r3_sampler, ck, repo, nf, field, RB + "PrioritizedReplayBuffer", "prioritized_sampling_stratified", "self.priority.priority", "stratified")
     _group(ck, r3_subtraj_masked, ck, repo, nf)
+    done9 = set()
+    _group(ck, r9_derived_state, ck, repo, nf, PB, "prioritized_sampling", "self.priority", done9)
+    _group(ck, r9_derived_state, ck, repo, nf, RB + "PrioritizedReplayBuffer", "prioritized_sampling_stratified", "self.priority.priority", done9)
     # ---- R4 bookkeeping
     _group(ck, r4_update, ck, repo, nf, field)
     _group(ck, r4_reset, ck, repo, nf)
@@ -1530,6 +1912,26 @@ MUTANTS = [
     {"id": "c08-multitask-sample-selected", "file": _F, "rule": "R8", "find": "        return self.buffers[self.sampled_task_idx].sample_batch(", "replace": "        return self.buffers[self.selected_task].sample_batch("},
     {"id": "c08-td7-raw-errors", "file": "rl_blox/algorithm/td7.py", "rule": "R6", "find": "        lap_priority(max_abs_td_error, lap_min_priority, lap_alpha)\n", "replace": "        max_abs_td_error\n"},
     {"id": "c08-td7-wrong-result", "file": "rl_blox/algorithm/td7.py", "rule": "R6", "find": "        lap_priority(max_abs_td_error, lap_min_priority, lap_alpha)\n", "replace": "        lap_priority(q_loss_value, lap_min_priority, lap_alpha)\n"},
+    # spellings read through _read_spellings / _forwarded (method form of searchsorted, accumulation into a fresh local, len(self), a forwarding sampler), reset over a selection
+    {"id": "c08-method-searchsorted-raw", "file": _F, "rule": "R3", "find": "        self.sampled_indices = np.searchsorted(probabilities, random_uniforms)", "replace": "        self.sampled_indices = priority.searchsorted(random_uniforms)"},
+    {"id": "c08-inplace-cumsum-first-element", "file": _F, "rule": "R3", "find": "        priority = self.priority[:current_len]\n        if mask is not None:\n            priority = priority * mask[:current_len]\n        probabilities = np.cumsum(priority)\n        random_uniforms = rng.uniform(0, 1, size=batch_size) * probabilities[-1]\n", "replace": "        if mask is None:\n            probabilities = np.cumsum(self.priority[:current_len])\n        else:\n            probabilities = mask[:current_len] * self.priority[:current_len]\n            np.cumsum(probabilities, out=probabilities)\n        random_uniforms = rng.uniform(0, 1, size=batch_size) * probabilities[0]\n"},
+    {"id": "c08-forwarder-drops-mask", "file": _F, "rule": "R3", "edits": [
+        ("        mask: npt.NDArray[int] | None = None,\n    ) -> npt.NDArray[int]:\n        \"\"\"Sample indices based on the priority distribution.\"\"\"\n", "        mask: npt.NDArray[int] | None = None,\n        *,\n        per_segment: bool = False,\n    ) -> npt.NDArray[int]:\n        \"\"\"Sample indices based on the priority distribution.\"\"\"\n"),
+        ("        random_uniforms = rng.uniform(0, 1, size=batch_size) * probabilities[-1]\n", "        if per_segment:\n            width = probabilities[-1] / batch_size\n            random_uniforms = (np.arange(batch_size) + rng.uniform(0, 1, size=batch_size)) * width\n        else:\n            random_uniforms = rng.uniform(0, 1, size=batch_size) * probabilities[-1]\n"),
+        ("        priority = self.priority.priority[:current_len]\n        if mask is not None:\n            priority = priority * mask[:current_len]\n        probabilities = np.cumsum(priority)\n\n        # stratified sampling: divide [0, sum_probability] into batch_size segments\n        segment = probabilities[-1] / batch_size\n\n        # sample one uniform value per segment\n        random_points = rng.uniform(\n            low=np.arange(batch_size) * segment,\n            high=(np.arange(batch_size) + 1) * segment,\n            size=batch_size\n        )\n\n        self.priority.sampled_indices = np.searchsorted(\n            probabilities, random_points\n        )\n        return self.priority.sampled_indices\n", "        return self.priority.prioritized_sampling(current_len, batch_size, rng, per_segment=True)\n")]},
+    {"id": "c08-ratio-len-self-plus-beta", "file": _F, "rule": "R5", "find": "        is_weight = (self.current_len * priority / sum_probability) ** (-beta)", "replace": "        is_weight = (len(self) * priority / sum_probability) ** beta"},
+    {"id": "c08-reset-selection-by-mask", "file": _F, "rule": "R4", "edits": [
+        ("    def reset_max_priority(self, current_len: int):\n        \"\"\"Recalculate the maximum priority.\"\"\"\n        if current_len > 0:\n            self.max_priority = np.max(self.priority[:current_len])\n", "    def reset_max_priority(self, current_len: int, valid=None):\n        \"\"\"Recalculate the maximum priority.\"\"\"\n        if current_len > 0:\n            stored = self.priority[:current_len]\n            if valid is not None:\n                stored = stored[np.flatnonzero(valid[:current_len])]\n            self.max_priority = stored.max()\n"),
+        ("    def reset_max_priority(self):\n        self.priority.reset_max_priority(self.current_len)\n\n\n@partial", "    def reset_max_priority(self):\n        self.priority.reset_max_priority(self.current_len, valid=self.mask_)\n\n\n@partial")]},
+    # a cumulative distribution kept between calls must be refreshed by every writer of the priorities (R9)
+    {"id": "c08-kept-cdf-stale-after-add", "file": _F, "rule": "R9", "edits": [
+        ("        self.sampled_indices = np.empty(0, dtype=int)\n", "        self.sampled_indices = np.empty(0, dtype=int)\n        self._cdf = None\n        self._cdf_len = -1\n"),
+        ("        priority = self.priority[:current_len]\n        if mask is not None:\n            priority = priority * mask[:current_len]\n        probabilities = np.cumsum(priority)\n        random_uniforms", "        if self._cdf_len != current_len:\n            priority = self.priority[:current_len]\n            if mask is not None:\n                priority = priority * mask[:current_len]\n            self._cdf = np.cumsum(priority)\n            self._cdf_len = current_len\n        probabilities = self._cdf\n        random_uniforms"),
+        ("        self.max_priority = max(np.max(priority), self.max_priority)\n", "        self.max_priority = max(np.max(priority), self.max_priority)\n        self._cdf_len = -1\n")]},
+    {"id": "c08-kept-cdf-stale-after-update", "file": _F, "rule": "R9", "edits": [
+        ("        self.sampled_indices = np.empty(0, dtype=int)\n", "        self.sampled_indices = np.empty(0, dtype=int)\n        self._writes = 0\n        self._cdf = None\n        self._cdf_writes = -1\n"),
+        ("        self.priority[insert_idx] = self.max_priority\n", "        self.priority[insert_idx] = self.max_priority\n        self._writes += 1\n"),
+        ("        priority = self.priority[:current_len]\n        if mask is not None:\n            priority = priority * mask[:current_len]\n        probabilities = np.cumsum(priority)\n        random_uniforms", "        if self._cdf_writes != self._writes or len(self._cdf) != current_len:\n            priority = self.priority[:current_len]\n            if mask is not None:\n                priority = priority * mask[:current_len]\n            self._cdf = np.cumsum(priority)\n            self._cdf_writes = self._writes\n        probabilities = self._cdf\n        random_uniforms")]},
 ]
 BENIGN = [
     {"id": "c08-b-max-early-return", "file": _F, "find": "        self.max_priority = max(np.max(priority), self.max_priority)", "replace": "        batch_max = np.max(priority)\n        if self.max_priority > batch_max:\n            return\n        self.max_priority = batch_max"},
@@ -1566,4 +1968,16 @@ BENIGN = [
     {"id": "c08-b-multitask-reset-alias", "file": _F, "find": "        for buffer in self.buffers:\n            buffer.reset_max_priority()", "replace": "        for _i, buffer in enumerate(self.buffers):\n            member = buffer\n            member.reset_max_priority()"},
     {"id": "c08-b-td3lap-aux-carrier", "file": "rl_blox/algorithm/td3_lap.py", "edits": [("from ..blox.replay_buffer import LAP, lap_priority", "from ..blox import replay_buffer as _rb\nfrom ..blox.replay_buffer import LAP, lap_priority"), ("                q_loss_value, (q_mean, max_abs_td_error) = train_step(", "                q_loss_value, aux = train_step("), ("                priority = lap_priority(\n                    max_abs_td_error, lap_min_priority, lap_alpha\n                )\n                replay_buffer.update_priority(priority)", "                q_mean = aux[0]\n                max_abs_td_error = aux[1]\n                errors = max_abs_td_error\n                priority = _rb.lap_priority(errors, alpha=lap_alpha, min_priority=lap_min_priority)\n                replay_buffer.update_priority(priority=np.asarray(priority))")]},
     {"id": "c08-b-td7-whole-result", "file": "rl_blox/algorithm/td7.py", "edits": [("    q_loss_value, max_abs_td_error, q_target = td7_update_critic(", "    critic_out = td7_update_critic("), ("    metrics[\"q loss\"] = q_loss_value\n", "    q_loss_value, max_abs_td_error, q_target = critic_out\n    metrics[\"q loss\"] = q_loss_value\n")]},
+    # spellings with one meaning: method form of cumsum / searchsorted, accumulation into a freshly allocated local, len(self), a sampler that forwards to its sibling
+    {"id": "c08-b-method-cumsum-searchsorted", "file": _F, "find": "        probabilities = np.cumsum(priority)\n        random_uniforms = rng.uniform(0, 1, size=batch_size) * probabilities[-1]\n        self.sampled_indices = np.searchsorted(probabilities, random_uniforms)", "replace": "        cdf = priority.cumsum()\n        random_uniforms = rng.uniform(0, 1, size=batch_size) * cdf[-1]\n        self.sampled_indices = cdf.searchsorted(random_uniforms, side=\"left\")"},
+    {"id": "c08-b-stratified-method-searchsorted", "file": _F, "find": "        self.priority.sampled_indices = np.searchsorted(\n            probabilities, random_points\n        )", "replace": "        self.priority.sampled_indices = probabilities.searchsorted(v=random_points)"},
+    {"id": "c08-b-inplace-cumsum-fresh", "file": _F, "nth": 0, "find": "        probabilities = np.cumsum(priority)\n", "replace": "        probabilities = priority * 1.0\n        np.cumsum(probabilities, out=probabilities)\n"},
+    {"id": "c08-b-inplace-cumsum-preallocated", "file": _F, "nth": 0, "find": "        probabilities = np.cumsum(priority)\n", "replace": "        probabilities = np.empty(current_len)\n        probabilities = np.cumsum(priority, out=probabilities)\n"},
+    {"id": "c08-b-stratified-forwarder", "file": _F, "edits": [
+        ("        mask: npt.NDArray[int] | None = None,\n    ) -> npt.NDArray[int]:\n        \"\"\"Sample indices based on the priority distribution.\"\"\"\n", "        mask: npt.NDArray[int] | None = None,\n        *,\n        per_segment: bool = False,\n    ) -> npt.NDArray[int]:\n        \"\"\"Sample indices based on the priority distribution.\"\"\"\n"),
+        ("        random_uniforms = rng.uniform(0, 1, size=batch_size) * probabilities[-1]\n", "        if per_segment:\n            width = probabilities[-1] / batch_size\n            random_uniforms = (np.arange(batch_size) + rng.uniform(0, 1, size=batch_size)) * width\n        else:\n            random_uniforms = rng.uniform(0, 1, size=batch_size) * probabilities[-1]\n"),
+        ("        priority = self.priority.priority[:current_len]\n        if mask is not None:\n            priority = priority * mask[:current_len]\n        probabilities = np.cumsum(priority)\n\n        # stratified sampling: divide [0, sum_probability] into batch_size segments\n        segment = probabilities[-1] / batch_size\n\n        # sample one uniform value per segment\n        random_points = rng.uniform(\n            low=np.arange(batch_size) * segment,\n            high=(np.arange(batch_size) + 1) * segment,\n            size=batch_size\n        )\n\n        self.priority.sampled_indices = np.searchsorted(\n            probabilities, random_points\n        )\n        return self.priority.sampled_indices\n", "        drawn = self.priority.prioritized_sampling(current_len, batch_size, rng, mask=mask, per_segment=True)\n        return drawn\n")]},
+    {"id": "c08-b-ratio-len-self", "file": _F, "edits": [("        is_weight = (self.current_len * priority / sum_probability) ** (-beta)", "        is_weight = (len(self) * priority / sum_probability) ** (-beta)"), ("        normalized_weights = is_weight / np.max(is_weight)", "        normalized_weights = is_weight / is_weight.max()")]},
+    {"id": "c08-b-reset-filled-slice-guard", "file": _F, "find": "        if current_len > 0:\n            self.max_priority = np.max(self.priority[:current_len])", "replace": "        stored = self.priority[:current_len]\n        if len(stored) > 0:\n            self.max_priority = stored.max()"},
+    {"id": "c08-b-total-kept-for-diagnostics", "file": _F, "nth": 0, "find": "        probabilities = np.cumsum(priority)\n", "replace": "        probabilities = np.cumsum(priority)\n        self.last_total_priority = probabilities[-1]\n"},
 ]
